@@ -26,13 +26,14 @@ type Extractor struct {
 	cloFn           map[AtomID]*ssa.MakeClosure
 	phiOf           map[AtomID]*ssa.Phi
 	phiFC           map[AtomID]*FC
+	memphiOf        map[AtomID]memphiInfo
 	fcCache         map[*ssa.Function]*FC
 	MaxInlineBlocks int
 }
 
 func NewExtractor(w *World, eff *Effects) *Extractor {
 	return &Extractor{W: w, S: NewSym(), Eff: eff, depth: map[*ssa.Function]int{}, NoInline: map[string]bool{},
-		cloFn: map[AtomID]*ssa.MakeClosure{}, phiOf: map[AtomID]*ssa.Phi{}, phiFC: map[AtomID]*FC{}, fcCache: map[*ssa.Function]*FC{}, MaxInlineBlocks: 14}
+		cloFn: map[AtomID]*ssa.MakeClosure{}, phiOf: map[AtomID]*ssa.Phi{}, phiFC: map[AtomID]*FC{}, memphiOf: map[AtomID]memphiInfo{}, fcCache: map[*ssa.Function]*FC{}, MaxInlineBlocks: 14}
 }
 
 // Assumption: either an equality atom := value, or a condition with a truth value.
@@ -92,7 +93,12 @@ func (x *Extractor) newFC(fn *ssa.Function, bind map[*ssa.Parameter]*RF, assume 
 	}
 	base := x.newFC(fn, bind, nil)
 	fc.Ctx = NewCtx(x.W, fn, func(c ssa.Value) Tri {
-		return x.EvalCond(base.Val(c), assume)
+		v := base.Val(c)
+		if t := x.EvalCond(v, assume); t != Unknown {
+			return t
+		}
+		// the unassuming context may see gating functions that the assumptions resolve
+		return x.EvalCond(x.SimplifyUnder(v, assume), assume)
 	})
 	return fc
 }
@@ -735,10 +741,25 @@ type cellBlock struct {
 
 func (fc *FC) memphi(c cellKey, cellType types.Type, b *ssa.BasicBlock) *RF {
 	name := fmt.Sprintf("memphi:%s:%s.%d@%d", fc.X.W.FuncName(fc.Fn), c.base.Name(), c.field, b.Index)
+	var r *RF
 	if len(fc.bindArgs) > 0 {
-		return fc.X.S.Fn(name, fc.bindArgs...)
+		r = fc.X.S.Fn(name, fc.bindArgs...)
+	} else {
+		r = fc.X.S.Var(name, isIntType(cellTypeField(cellType, c.field)))
 	}
-	return fc.X.S.Var(name, isIntType(cellTypeField(cellType, c.field)))
+	if at := r.SingleAtom(); at != nil {
+		if _, ok := fc.X.memphiOf[at.ID]; !ok {
+			fc.X.memphiOf[at.ID] = memphiInfo{fc, c, cellType, b}
+		}
+	}
+	return r
+}
+
+type memphiInfo struct {
+	fc *FC
+	c  cellKey
+	t  types.Type
+	b  *ssa.BasicBlock
 }
 
 func (fc *FC) cellAtEntry(c cellKey, cellType types.Type, b *ssa.BasicBlock) *RF {
@@ -1288,6 +1309,39 @@ func (fc *FC) call(c *ssa.Call) *RF {
 		}
 		args[i] = fc.Val(a)
 	}
+	// for inlining, a pointer parameter whose pointee this function has
+	// modified before the call is passed as a reference to the struct's
+	// current value (an inlined callee reads memory as of the call, not as of
+	// this function's entry)
+	iargs := args
+	for i, a := range cm.Args {
+		p, ok := a.(*ssa.Parameter)
+		if !ok {
+			continue
+		}
+		pt, ok := p.Type().Underlying().(*types.Pointer)
+		if !ok {
+			continue
+		}
+		st, ok := pt.Elem().Underlying().(*types.Struct)
+		if !ok {
+			continue
+		}
+		changed := false
+		fs := make([]*RF, st.NumFields())
+		for k := range fs {
+			fs[k] = fc.cellValue(cellKey{p, k}, pt.Elem(), c)
+			if !fs[k].Equal(fc.entryValue(cellKey{p, k}, pt.Elem())) {
+				changed = true
+			}
+		}
+		if changed {
+			if &iargs[0] == &args[0] {
+				iargs = append([]*RF(nil), args...)
+			}
+			iargs[i] = s.MakeFn("ref", x.mkStruct(pt.Elem(), fs))
+		}
+	}
 	if cm.IsInvoke() {
 		return x.Invoke(cm.Method.Name(), append([]*RF{fc.Val(cm.Value)}, args...)...)
 	}
@@ -1305,7 +1359,7 @@ func (fc *FC) call(c *ssa.Call) *RF {
 		if mc, ok := cm.Value.(*ssa.MakeClosure); ok {
 			return x.callClosure(mc, args, fc)
 		}
-		return x.CallFn(f, args)
+		return x.callFn(f, args, iargs)
 	}
 	// call through a function value
 	fv := fc.Val(cm.Value)
@@ -1333,10 +1387,13 @@ func (x *Extractor) callClosure(mc *ssa.MakeClosure, args []*RF, parent *FC) *RF
 
 // CallFn: the value of calling f with args — inlined when f is a small
 // acyclic module function, else an application atom.
-func (x *Extractor) CallFn(f *ssa.Function, args []*RF) *RF {
+func (x *Extractor) CallFn(f *ssa.Function, args []*RF) *RF { return x.callFn(f, args, args) }
+
+// callFn: iargs are the arguments as seen by an inlined body (see FC.call).
+func (x *Extractor) callFn(f *ssa.Function, args, iargs []*RF) *RF {
 	name := x.W.FuncName(f)
 	if f.Blocks != nil && x.Eff != nil && x.Eff.analyzable(f) && !x.NoInline[name] {
-		if r := x.inline(f, args, nil); r != nil {
+		if r := x.inline(f, iargs, nil); r != nil {
 			return r
 		}
 	}
